@@ -2,7 +2,7 @@
 # growth specs (outside the listed properties, not in MANIFEST.json): ./check G01 / G02
 cd "$(dirname "$0")/.."
 tier="${1:-quick}"; rc=0
-for id in G01 G02; do
+for id in G01 G02 G03; do
   out=$(./check "$id" "$tier" 2>&1); r=$?
   echo "$id rc=$r $(echo "$out" | grep -cE '^DEVIATION') deviations $(echo "$out" | grep -cE '^KNOWN-FINDING') known | $(echo "$out" | tail -1)"
   [ $r -ne 0 ] && rc=1
